@@ -65,13 +65,24 @@ def dhash(obj):
 
 
 def tape_strategy(max_len=200, alphabet=6):
-    # mostly zeros so that the default policy dominates and preemptions are few
+    # mostly zeros so that the default policy dominates and preemptions are few; fixed length: Hypothesis' default
+    # average list size is ~5, far too short to reach deep scheduling decisions
     elem = st.one_of(st.just(0), st.just(0), st.just(0), st.integers(0, alphabet))
-    return st.builds(lambda t: {'kind': 'tape', 'tape': t}, st.lists(elem, max_size=max_len))
+    n = max(8, max_len // 2)
+    return st.builds(lambda t: {'kind': 'tape', 'tape': t}, st.lists(elem, min_size=n, max_size=max_len))
 
 
 def dense_tape_strategy(max_len=200, alphabet=6):
-    return st.builds(lambda t: {'kind': 'tape', 'tape': t}, st.lists(st.integers(0, alphabet), max_size=max_len))
+    n = max(8, max_len // 2)
+    return st.builds(lambda t: {'kind': 'tape', 'tape': t}, st.lists(st.integers(0, alphabet), min_size=n, max_size=max_len))
+
+
+def sparse_strategy(max_pos=400, max_preemptions=8, alphabet=6):
+    """a handful of preemptions at generated branching-decision indices; everything else follows the default policy"""
+    return st.builds(
+        lambda pre: {'kind': 'sparse', 'pre': sorted(pre)},
+        st.lists(st.tuples(st.integers(0, max_pos), st.integers(1, alphabet)).map(list), max_size=max_preemptions),
+    )
 
 
 def pct_strategy(est_steps=2000, depth=4, stalls=0):
@@ -86,6 +97,7 @@ def pct_strategy(est_steps=2000, depth=4, stalls=0):
 def sched_strategy(max_len=200, est_steps=2000, depth=4, stalls=0):
     return st.one_of(
         st.just({'kind': 'default'}),
+        sparse_strategy(max_pos=max(50, est_steps // 4)),
         tape_strategy(max_len),
         dense_tape_strategy(max_len),
         pct_strategy(est_steps, depth, stalls),
